@@ -11,7 +11,7 @@ for f in os.listdir(src):
 diff = subprocess.run(['git', '-C', wt, 'diff', '--', 'src', 'include'], capture_output=True, text=True).stdout
 open(os.path.join(dst, 'patch.diff'), 'w').write(diff)
 meta = {'property': prop, 'detected_by': [prop], 'needs_to_manifest': needs,
-        'confirmed': {'repo_tests_with_change': '87 pass / same 6 always-fail (ctest in the scratch worktree)', 'demo_with_change': 'run.sh exit 1', 'demo_without_change': 'run.sh exit 0 (git stash of src, library rebuilt)'},
+        'confirmed': {'repo_tests_with_change': '87 pass / same 6 always-fail (ctest in the scratch worktree)', 'demo_with_change': 'run.sh exit 1', 'demo_without_change': 'run.sh exit 0 (git apply -R demo/patch.diff, rebuilt; bin/confirm_seed.sh)'},
         'origin': 'independent sub-agent given only the property text and a scratch worktree'}
 json.dump(meta, open(os.path.join(dst, 'meta.json'), 'w'), indent=1)
 print('adopted', sid, os.listdir(dst))
